@@ -25,6 +25,8 @@ theorem at_add_none {s : H} {env : ModelEnv} {t : TRef} {a : ARef} (step : Strin
   simp only [h, Id.run, pure]
   rfl
 
+theorem at_setE_t (s : H) (r : ERef) (o : PyEp) : (s.setE r o).t = s.t := rfl
+
 /-- the first half of `remove_entry_point`: the step is removed from the list inside the tuple object -/
 def at_rmE (s : H) (r : ERef) (step : String) : H :=
   if (s.e r).steps.contains step then s.setE r { s.e r with steps := (s.e r).steps.erase step } else s
@@ -33,22 +35,174 @@ theorem at_rm_some {s : H} {env : ModelEnv} {t : TRef} {a : ARef} {r : ERef} (st
     (h : attachment_get_entry_point_tuple s env t a = some r) :
     attachment_remove_entry_point s env t a step =
       if ((at_rmE s r step).e r).steps.isEmpty then
-        match pyRemoveBy (eqEp env (at_rmE s r step)) (s.t t).entry_points r with
-        | .error err => .error err
-        | .ok v => .ok ((at_rmE s r step).setT t { s.t t with entry_points := v })
+        (pyRemoveBy (eqEp env (at_rmE s r step)) (s.t t).entry_points r).bind
+          (fun v => .ok ((at_rmE s r step).setT t { s.t t with entry_points := v }))
       else .ok (at_rmE s r step) := by
   unfold attachment_remove_entry_point at_rmE
   simp only [h, bind, Except.bind, pure, Except.pure, Bool.not_not]
   by_cases hc : (s.e r).steps.contains step = true
-  · simp only [hc, pyRemove, if_true]
-    rfl
-  · simp only [hc]
-    rfl
+  · simp only [hc, pyRemove, if_true, at_setE_t]
+  · simp only [hc, Bool.false_eq_true, if_false]
 
 theorem at_rm_none {s : H} {env : ModelEnv} {t : TRef} {a : ARef} (step : String)
     (h : attachment_get_entry_point_tuple s env t a = none) :
     attachment_remove_entry_point s env t a step = .ok s := by
   unfold attachment_remove_entry_point
-  simp only [h, bind, Except.bind, pure, Except.pure]
+  simp only [h, pure, Except.pure]
+
+/-! ### (1) `get_entry_point_tuple` -/
+
+theorem at_get_entry_point_tuple_tie {env : ModelEnv} (hE : EqId env) (s : H) (t : TRef) (a : ARef) :
+    (attachment_get_entry_point_tuple s env t a).map (epVal s) = ((abs s).tobj t).entry.find? (·.1 = a) := by
+  rw [at_get_eq]
+  show _ = ((s.t t).entry_points.map (epVal s)).find? (·.1 = a)
+  rw [List.find?_map]
+  congr 2
+  funext r
+  simp only [eqAsset_id hE, epVal, Function.comp]
+  by_cases h : (s.e r).asset = a <;> simp [h]
+
+theorem at_get_entry_point_tuple_mem {env : ModelEnv} (hE : EqId env) {s : H} {t : TRef} {a : ARef} {r : ERef}
+    (h : attachment_get_entry_point_tuple s env t a = some r) :
+    r ∈ (s.t t).entry_points ∧ (s.e r).asset = a := by
+  rw [at_get_eq] at h
+  refine ⟨List.mem_of_find?_eq_some h, ?_⟩
+  have := List.find?_some h
+  rw [eqAsset_id hE] at this
+  exact eq_of_beq this
+
+theorem at_get_entry_point_tuple_none {env : ModelEnv} {s : H} {t : TRef} {a : ARef}
+    (h : attachment_get_entry_point_tuple s env t a = none) :
+    ∀ r ∈ (s.t t).entry_points, (s.e r).asset ≠ a := by
+  rw [at_get_eq] at h
+  intro r hr e
+  have := List.find?_eq_none.1 h r hr
+  apply this
+  unfold eqAsset
+  simp [e]
+
+/-! ### list facts -/
+
+theorem at_nodup_map_inj {α β : Type} {f : α → β} {l : List α} (h : (l.map f).Nodup) {x y : α}
+    (hx : x ∈ l) (hy : y ∈ l) (e : f x = f y) : x = y := by
+  induction l with
+  | nil => cases hx
+  | cons z zs ih =>
+    rw [List.map_cons, List.nodup_cons] at h
+    rcases List.mem_cons.1 hx with rfl | hx' <;> rcases List.mem_cons.1 hy with rfl | hy'
+    · rfl
+    · exact absurd (e ▸ List.mem_map_of_mem hy') h.1
+    · exact absurd (e ▸ List.mem_map_of_mem hx') h.1
+    · exact ih h.2 hx' hy'
+
+theorem at_nodup_of_map {α β : Type} {f : α → β} {l : List α} (h : (l.map f).Nodup) : l.Nodup := by
+  induction l with
+  | nil => exact List.nodup_nil
+  | cons z zs ih =>
+    rw [List.map_cons, List.nodup_cons] at h
+    exact List.nodup_cons.2 ⟨fun hm => h.1 (List.mem_map_of_mem hm), ih h.2⟩
+
+theorem at_eraseP_congr {α : Type} {p q : α → Bool} {l : List α} (h : ∀ x ∈ l, p x = q x) :
+    l.eraseP p = l.eraseP q := by
+  induction l with
+  | nil => rfl
+  | cons z zs ih =>
+    rw [List.eraseP_cons, List.eraseP_cons, h z (List.mem_cons_self), ih (fun x hx => h x (List.mem_cons_of_mem _ hx))]
+
+/-! ### what the operations leave alone -/
+
+/-- everything but the attacker store and the tuple store is unchanged -/
+structure AtFrame (s s' : H) : Prop where
+  a : s'.a = s.a
+  afresh : s'.afresh = s.afresh
+  l : s'.l = s.l
+  lfresh : s'.lfresh = s.lfresh
+  tfresh : s'.tfresh = s.tfresh
+  assets : s'.assets = s.assets
+  associations : s'.associations = s.associations
+  tta : s'._type_to_association = s._type_to_association
+  attackers : s'.attackers = s.attackers
+  asset_ids : s'.asset_ids = s.asset_ids
+  asset_names : s'.asset_names = s.asset_names
+  next_id : s'.next_id = s.next_id
+
+theorem AtFrame.refl (s : H) : AtFrame s s := ⟨rfl, rfl, rfl, rfl, rfl, rfl, rfl, rfl, rfl, rfl, rfl, rfl⟩
+theorem AtFrame.setE (s : H) (r : ERef) (o : PyEp) : AtFrame s (s.setE r o) :=
+  ⟨rfl, rfl, rfl, rfl, rfl, rfl, rfl, rfl, rfl, rfl, rfl, rfl⟩
+theorem AtFrame.setT (s : H) (r : TRef) (o : PyAtt) : AtFrame s (s.setT r o) :=
+  ⟨rfl, rfl, rfl, rfl, rfl, rfl, rfl, rfl, rfl, rfl, rfl, rfl⟩
+theorem AtFrame.allocE (s : H) (o : PyEp) : AtFrame s (s.allocE o).1 :=
+  ⟨rfl, rfl, rfl, rfl, rfl, rfl, rfl, rfl, rfl, rfl, rfl, rfl⟩
+theorem AtFrame.trans {s s' s'' : H} (h : AtFrame s s') (h' : AtFrame s' s'') : AtFrame s s'' :=
+  ⟨h'.a.trans h.a, h'.afresh.trans h.afresh, h'.l.trans h.l, h'.lfresh.trans h.lfresh, h'.tfresh.trans h.tfresh,
+   h'.assets.trans h.assets, h'.associations.trans h.associations, h'.tta.trans h.tta,
+   h'.attackers.trans h.attackers, h'.asset_ids.trans h.asset_ids, h'.asset_names.trans h.asset_names,
+   h'.next_id.trans h.next_id⟩
+
+theorem at_abs_of_frame {s s' : H} (hf : AtFrame s s') (t : TRef) (f : MS.AttObj → MS.AttObj)
+    (h : ∀ u, absAtt s' (s'.t u) = if u = t then f (absAtt s (s.t u)) else absAtt s (s.t u)) :
+    abs s' = MS.updT (abs s) t f := by
+  unfold abs MS.updT
+  simp only [hf.a, hf.afresh, hf.l, hf.lfresh, hf.tfresh, hf.assets, hf.associations, hf.tta, hf.attackers,
+    hf.asset_ids, hf.asset_names, hf.next_id, MS.St.mk.injEq, true_and, and_true]
+  funext u
+  exact h u
+
+/-! ### no tuple object is shared between ANY two attachment objects -/
+
+/-- `EpOK` for all `AttackerAttachment` objects of the heap, also those that are not (or no longer) attackers of
+the model: `abs` maps every attachment object, so a tuple shared with an attachment that `remove_attacker` has
+taken out of the model would still make `abs` of the result differ from the hand model. -/
+structure EpOKAll (s : H) : Prop where
+  hS : ∀ t u, u ≠ t → ∀ r ∈ (s.t t).entry_points, r ∉ (s.t u).entry_points
+  hF : ∀ u, ∀ r ∈ (s.t u).entry_points, r < s.efresh
+
+theorem EpOKAll.epOK {s : H} (h : EpOKAll s) : EpOK s :=
+  ⟨fun t _ r hr => h.hF t r hr, fun t _ u _ htu r hr => h.hS t u (Ne.symm htu) r hr⟩
+
+/-! ### tuple values after an update of the tuple store -/
+
+theorem at_epVal_setE_ne (s : H) (r : ERef) (o : PyEp) {x : ERef} (h : x ≠ r) : epVal (s.setE r o) x = epVal s x := by
+  unfold epVal H.setE; simp only [if_neg h]
+theorem at_epVal_setE_eq (s : H) (r : ERef) (o : PyEp) : epVal (s.setE r o) r = (o.asset, o.steps) := by
+  unfold epVal H.setE; simp only [if_pos rfl]
+
+theorem at_map_epVal_setE_notin (s : H) (r : ERef) (o : PyEp) {l : List ERef} (h : r ∉ l) :
+    l.map (epVal (s.setE r o)) = l.map (epVal s) :=
+  List.map_congr_left (fun x hx => at_epVal_setE_ne s r o (fun e => h (e ▸ hx)))
+
+/-- assets are distinct inside one live attacker -/
+theorem at_asset_inj {s : H} (hI : MS.Inv (abs s)) {t : TRef} (ht : t ∈ s.attackers) {x y : ERef}
+    (hx : x ∈ (s.t t).entry_points) (hy : y ∈ (s.t t).entry_points) (e : (s.e x).asset = (s.e y).asset) : x = y := by
+  have h := hI.att.entry_nodup t ht
+  have h' : ((s.t t).entry_points.map (fun x => (s.e x).asset)).Nodup := by
+    have : ((abs s).tobj t).entry.map (·.1) = (s.t t).entry_points.map (fun x => (s.e x).asset) := by
+      show ((s.t t).entry_points.map (epVal s)).map (·.1) = _
+      rw [List.map_map]; rfl
+    rw [this] at h; exact h
+  exact at_nodup_map_inj h' hx hy e
+
+theorem at_find_absAtt {env : ModelEnv} (hE : EqId env) (s : H) (t : TRef) (a : ARef) :
+    (absAtt s (s.t t)).entry.find? (·.1 = a) = (attachment_get_entry_point_tuple s env t a).map (epVal s) :=
+  (at_get_entry_point_tuple_tie hE s t a).symm
+
+/-! ### (2) `add_entry_point` -/
+
+theorem add_entry_point_tie {env : ModelEnv} (hE : EqId env) (s : H) (hI : MS.Inv (abs s)) (hO : EpOKAll s)
+    (t : TRef) (ht : t ∈ s.attackers) (a : ARef) (step : String) :
+    abs (attachment_add_entry_point s env t a step) = MS.addEntryPoint (abs s) t a step := by
+  unfold MS.addEntryPoint
+  cases hg : attachment_get_entry_point_tuple s env t a with
+  | none =>
+    rw [at_add_none step hg]
+    apply at_abs_of_frame ((AtFrame.allocE s _).trans (AtFrame.setT _ _ _))
+    intro u
+    by_cases hu : u = t
+    · subst hu
+      rw [if_pos rfl, at_find_absAtt hE, hg]
+      trace_state
+      sorry
+    · sorry
+  | some r => sorry
 
 end MalVerif.PyM.Tie
